@@ -60,10 +60,12 @@ func init() {
 			ex.abort("unsupported", "vEventStr: no such event")
 			return nil
 		},
-		"vBlockedGo": func(ex *Exec, fr *frame, args []Value) Value { return ex.i64(int64(len(ex.blockedList()))) },
-		"vNow":       func(ex *Exec, fr *frame, args []Value) Value { return ex.timeNow() },
-		"vAfter":     func(ex *Exec, fr *frame, args []Value) Value { return models["time.After"](ex, fr, args) },
-		"vSince":     func(ex *Exec, fr *frame, args []Value) Value { return models["time.Since"](ex, fr, args) },
+		"vYield":      func(ex *Exec, fr *frame, args []Value) Value { ex.yieldPoint("yield"); return nil },
+		"vYieldKinds": func(ex *Exec, fr *frame, args []Value) Value { ex.X.YieldKinds = concreteName(ex, args[0]); return nil },
+		"vBlockedGo":  func(ex *Exec, fr *frame, args []Value) Value { return ex.i64(int64(len(ex.blockedList()))) },
+		"vNow":        func(ex *Exec, fr *frame, args []Value) Value { return ex.timeNow() },
+		"vAfter":      func(ex *Exec, fr *frame, args []Value) Value { return models["time.After"](ex, fr, args) },
+		"vSince":      func(ex *Exec, fr *frame, args []Value) Value { return models["time.Since"](ex, fr, args) },
 		"vMark": func(ex *Exec, fr *frame, args []Value) Value {
 			ex.logEvent("mark:"+concreteName(ex, args[0]), nil)
 			return nil
